@@ -3,7 +3,7 @@
 From Coq Require Import NArith Bool List.
 Import ListNotations.
 From XetModel Require Import Base.Codec Gen.HashConsts Gen.XorbLayout Model.Merkle Model.Shard Model.Xorb
-  Proofs.CodecProofs Proofs.Bg4Proofs Proofs.XorbProofs Proofs.XorbFooterProofs Proofs.XorbWholeProofs.
+  Proofs.CodecProofs Proofs.Bg4Proofs Proofs.XorbProofs Proofs.XorbFooterProofs Proofs.XorbWholeProofs Proofs.XorbRangeProofs.
 Open Scope N_scope.
 
 (* byte grouping: regroup . split = id for every byte string, and every index the pointer arithmetic of
@@ -57,6 +57,29 @@ Theorem C07_xorb_get_all_bytes : forall lz4c lz4d choose,
   ROk (concat chunks).
 Proof. exact xorb_get_all_bytes. Qed.
 
+(* every chunk range [a, b): the bytes read back are exactly the concatenation of chunks a .. b-1, and the length the footer
+   reports for the range is the length of that concatenation *)
+Theorem C07_xorb_get_chunk_range : forall lz4c lz4d choose,
+  (forall x, lz4d (lz4c x) = Some x) -> (forall x, choose x <= MAX_SCHEME) ->
+  forall cashash chunks hashes scheme a b,
+  xorb_input_ok cashash chunks hashes -> fold_right N.add 0 (phys_lens lz4c choose chunks scheme) < 4294967296 ->
+  bytes_eqb cashash zero_hash = false -> scheme_valid scheme -> a < b -> b <= N.of_nat (length chunks) ->
+  get_bytes_by_chunk_range lz4d (built_info lz4c choose cashash chunks hashes scheme) (xorb_serialize lz4c choose cashash chunks hashes scheme) a b =
+  ROk (concat (firstn (N.to_nat (b - a)) (skipn (N.to_nat a) chunks))).
+Proof. exact xorb_get_chunk_range. Qed.
+Theorem C07_xorb_range_length : forall lz4c choose cashash chunks hashes scheme a b,
+  xorb_input_ok cashash chunks hashes -> bytes_eqb cashash zero_hash = false ->
+  a <= b -> b <= N.of_nat (length chunks) -> a < N.of_nat (length chunks) ->
+  uncompressed_range_length (built_info lz4c choose cashash chunks hashes scheme) a b =
+  ROk (N.of_nat (length (concat (firstn (N.to_nat (b - a)) (skipn (N.to_nat a) chunks))))).
+Proof. exact xorb_uncompressed_range_length. Qed.
+Example C07_range_nonvacuous :
+  let lz4c := fun x : list N => x in let lz4d := fun x : list N => Some x in let choose := fun _ : list N => 2 in
+  get_bytes_by_chunk_range lz4d (built_info lz4c choose (repeat 5 32%nat) [[1; 2; 3]; [9]; [7; 7]] [repeat 1 32%nat; repeat 2 32%nat; repeat 3 32%nat] None)
+                (xorb_serialize lz4c choose (repeat 5 32%nat) [[1; 2; 3]; [9]; [7; 7]] [repeat 1 32%nat; repeat 2 32%nat; repeat 3 32%nat] None) 1 3
+  = ROk [9; 7; 7].
+Proof. cbv zeta. vm_compute. reflexivity. Qed.
+
 (* non-vacuity: an identity "codec" satisfies the hypothesis; a two-chunk xorb under scheme bg4 *)
 Example C07_nonvacuous :
   let lz4c := fun x : list N => x in let lz4d := fun x : list N => Some x in let choose := fun _ : list N => 2 in
@@ -70,3 +93,5 @@ Print Assumptions C07_bg4_roundtrip.
 Print Assumptions C07_chunk_roundtrip.
 Print Assumptions C07_xorb_footer_roundtrip.
 Print Assumptions C07_xorb_get_all_bytes.
+Print Assumptions C07_xorb_get_chunk_range.
+Print Assumptions C07_xorb_range_length.
